@@ -103,7 +103,7 @@ def overwrite_cases(thorough):
                     if x == "junk":
                         a.append("y")
                 yield {"entries": ents, "cmd": "x", "pre": pre, "answers": a}
-        for cmd in ("xf", "xq", "xq1", "eq2"):
+        for cmd in ("xf", "xq", "xq0", "xq1", "xq2", "eq2", "xq0v", "xvq0", "eq"):
             yield {"entries": ents, "cmd": cmd, "pre": pre}
     # a pre-existing link at an output name (to an existing and to a missing target)
     for tgt in ("one.txt", "missing"):
@@ -123,6 +123,17 @@ def mac_cases(thorough):
                         {"k": "f", "path": "", "name": "after", "perms": 0o100644, "mtime": T1, "data": hx(b"next member")}]
                 for cmd in ("xf", "pq2"):
                     yield {"entries": ents, "cmd": cmd}
+
+
+def relocation_cases(thorough):
+    """w=OUT while directories of the same names already exist in the working directory: they must stay untouched"""
+    trees = fixed_trees()
+    for tname in ("nested", "links"):
+        ents = trees[tname]
+        dirs = sorted(set(e["path"].split("/")[0] for e in ents if e["path"]))
+        pre = [[d, "d", None, 0o750, 900000000] for d in dirs] + [["top", "f", hx(b"keep me"), 0o640, 900000001]]
+        for cmd in ("xfw=OUT", "xqw=OUT", "xfiw=OUT", "efw=OUT"):
+            yield {"entries": ents, "cmd": cmd, "pre": pre, "uid": 0}
 
 
 def glob_paths():
@@ -168,6 +179,7 @@ def run(ctx):
     cliprop.run_space(ctx, "props.cli_c06", "options", option_cases(T), chunk=32)
     cliprop.run_space(ctx, "props.cli_c06", "overwrite", overwrite_cases(T), chunk=64)
     cliprop.run_space(ctx, "props.cli_c06", "macbinary", mac_cases(T), chunk=16)
+    cliprop.run_space(ctx, "props.cli_c06", "relocation", relocation_cases(T), chunk=4)
     cliprop.run_space(ctx, "props.cli_c06", "wildcards", glob_cases(T), chunk=8)
     cliprop.run_space(ctx, "props.cli_c06", "print", print_cases(T), chunk=64)
     ctx.assumptions += ["extraction model of DESIGN.md appendix E; trees are serialised directory-first and contiguous; runs that involve read-only directories are made as uid 65534 so that permission bits really refuse writes",
